@@ -231,10 +231,13 @@ theorem write_acmd (blocks : List Bytes) (idx : Nat) : Acmd (write B blocks idx)
   have h3 : Acmd (cardCommand B CMD13 0) := Acmd.of_no55 (cardCommand_no55 B _ _ (by decide))
   have h4 : ∀ n, Acmd (waitNotBusy B n) := fun n => Acmd.of_no55 (waitNotBusy_emits B n)
   have h5 : ∀ t b, Acmd (writeData B t b) := fun t b => Acmd.of_no55 (writeData_emits B t b)
-  have h6 : ∀ l, Acmd (writeBlocks B l) := fun l => Acmd.of_no55 (writeBlocks_emits B l)
   have h7 : Acmd (readByte B) := Acmd.of_no55 (readByte_emits B)
-  have h8 : ∀ x, Acmd (writeByte B x) := fun x => Acmd.of_no55 (writeByte_emits B x)
-  acmd_tac [h1 _, h2 _, h3, cardAcmd_acmd B _ _ (Or.inr rfl), h4 _, h5 _ _, h6 _, h7, h8 _]
+  refine Acmd.bind Acmd.get fun s => Acmd.bind (Acmd.lift _) fun start => ?_
+  split
+  · acmd_tac [h1 _, h3, h4 _, h5 _ _, h7]
+  · refine Acmd.bind (cardAcmd_acmd B _ _ (Or.inr rfl)) fun _ => Acmd.bind (h4 _) fun _ =>
+      Acmd.bind (h2 _) fun _ => Acmd.of_no55 ?_
+    emits [writeBlocks_emits B _, waitNotBusy_emits B _, writeByte_emits B _, readByte_emits B]
 
 /-- Same body as `Sdmmc.Props.C14.AcmdFollowed`. -/
 def AcmdFollowed (c : Call) (r : SRes Answer) (evs : List Event) : Prop :=
